@@ -19,3 +19,10 @@ check(
     "Tree/tree_add_node/DecisionTreeRegressor are a node-table model (left iff x<=threshold), validated every run against the compiled extension and the real sklearn Tree. Inputs representable in float32. Bounded in bins length and tree size.",
     "DESIGN.md 3.C12",
 )
+check(
+    "C05",
+    "bounded symbolic execution (SX, z3 QF_NRA) of the real score/_epsilon/fit loop with symbolic data, quantile, delta, weights and an arbitrary-answer least-squares stub",
+    "For symbolic y, predictions, weights and q in (0,1): score == 2 x (weighted) mean pinball loss (q=0.5: MAE). For the real IRLS loop with the inner least-squares solver answering an ARBITRARY beta: the weights passed to the next solve satisfy W'*max(|e|,delta) == w*c_q(sign e), i.e. W'e^2 == w*rho_q(e) (each iteration minimises the majoriser of the same pinball loss), integer weights == repeated rows for that step, inner solver built with fit_intercept=False and the CURRENT positive (also after set_params + refit), design matrix [X,1], coef_/intercept_ from the last beta, intercept_=0 without intercept, n_iter_<=max_iter-1, caller arrays untouched. Bounds: n<=3/4 rows, 2 iterations.",
+    "Least squares itself (LAPACK/NNLS), IRLS convergence and the 'fraction q below the line' consequence are outside the claim. Reals not floats. sklearn predict / mean_absolute_error stubbed by their documented contracts.",
+    "DESIGN.md 3.C05",
+)
